@@ -16,6 +16,14 @@ def stepFailover (toks : List String) : Option String :=
       else if n < th then some "unsupported"
       else some "final=B changed=1"
     | _, _ => some "bad-op"
+  | ["failover", th, n, "hang"] =>
+    -- the same with a black-holed A: a query that fails by running into its own deadline is a failed query
+    match th.toNat?, n.toNat? with
+    | some th, some n =>
+      if th = 0 ∨ th > 20 ∨ n > 200 then some "bad-op"
+      else if n < th then some "unsupported"
+      else some "final=B changed=1"
+    | _, _ => some "bad-op"
   | _ => none
 
 end NV
